@@ -300,7 +300,7 @@ def run(ctx):
             ctx.nontrivial(nontrivial_key(p))
         if st == "ok":
             agree += 1
-    ctx.notes["programs"] = [{"cmds": [pd.cmd_str(c) for c in p["cmds"]],
+    ctx.notes["program_list"] = [{"cmds": [pd.cmd_str(c) for c in p["cmds"]],
                               "exits": [e["exit"] for e in case["events"]],
                               "vol": "%s %s %s%s" % (p["vol"]["dtype"], p["vol"]["shape"], p["vol"]["voxel"],
                                                      " rgb" if p["vol"].get("rgb") else ""),
